@@ -86,6 +86,26 @@ Proof.
 Qed.
 Print Assumptions race_reaches_result.
 
+(* prompt return: in every reachable state in which a winner has been elected (connection_scope cancelled) while other
+   attempts are still in flight -- or in which the task group is already aborting -- the call reaches its result by task
+   steps alone (the host takes its cancellation, every in-flight attempt takes its own and closes its socket, the
+   host leaves the group): no connect outcome, no timer and no further event is needed, and at most mu steps.  With
+   result_exact the losers' sockets are closed when it returns. *)
+Theorem winner_returns_promptly : forall c tr s,
+  NoDup (map a_id (c_addrs c)) -> c_addrs c <> [] -> exec c (init c) tr = Some s ->
+  (r_scope s = true \/ r_host s = HAbort) ->
+  exists tr2 s2, exec c s tr2 = Some s2 /\ r_result s2 <> None /\ length tr2 <= mu c s /\
+    Forall (fun l => match l with LHostCancel | LHostFinish _ | LChildSkip _ | LConnCancel _ => True | _ => False end) tr2.
+Proof.
+  intros c tr s Hd Hne H Hs.
+  destruct (returns_promptly c Hd Hne (mu c s) s (exec_inv c Hd Hne tr (init c) s (init_inv c) H)
+              (exec_inv2 c tr (init c) s (init_inv2 c) H) (exec_inv5 c tr (init c) s (init_inv5 c) H) (le_n _) Hs)
+    as (tr2 & s2 & A & B & C & D).
+  exists tr2, s2. repeat split; auto. rewrite forallb_forall in D. apply Forall_forall. intros l Hl.
+  specialize (D _ Hl). destruct l; simpl in D; try discriminate; exact I.
+Qed.
+Print Assumptions winner_returns_promptly.
+
 (* conservation of sockets, for every label sequence and every scripted outcome of socket(), bind() (any number of
    local addresses per family, any subset failing) and connect: an open socket is always one that an attempt of this
    race created, and once the race has a result every socket it ever created is closed -- except the returned one *)
